@@ -99,6 +99,11 @@ func NewParser(srcPath, dstPath string) (*Parser, error) {
 	if fileSrc == nil && parseErr != nil {
 		return nil, logger.Errorf("%v: %v", srcPath, parseErr)
 	}
+	if fileSrc == nil {
+		// The loader did not ask for the file itself, e.g. because it imports "C"
+		// and cgo's translation takes its place.
+		return nil, logger.Errorf("%v: the file is not loaded as a source file of its package (does it import \"C\"?)", srcPath)
+	}
 	return &Parser{
 		// The name of the file itself: a //line directive renames positions, not files.
 		srcPath: fileSet.File(fileSrc.Pos()).Name(),
